@@ -1269,8 +1269,8 @@ def main(tier: str) -> int:
                               'kw_not_permitted': {'nodes': len(g0.nodes), 'edges': g0.n_edges},
                               'kw_permitted': {'nodes': len(g1.nodes), 'edges': g1.n_edges}}
         if quick:
-            plan = [('dict', g0, n0, None, 30), ('maildir++', g0, n0, 400, 10),
-                    ('maildirfs', g0, n0, 120, 5), ('maildir++kw', g1, n1, 250, 7)]
+            plan = [('dict', g0, n0, None, 30), ('maildir++', g0, n0, 600, 10),
+                    ('maildirfs', g0, n0, 200, 5), ('maildir++kw', g1, n1, 400, 8)]
         else:
             plan = [('dict', g0, n0, None, 240), ('maildir++', g0, n0, None, 300),
                     ('maildirfs', g0, n0, 4000, 80), ('maildir++kw', g1, n1, 12000, 200),
